@@ -163,7 +163,10 @@ func (g *G) literal() cfg.Val {
 	return cfg.Int(int64(g.pick(10)))
 }
 
-var plainStrings = []string{"", "x", "hello world", "a:b", "100%%", "%%", "é✓", "line\nbreak", `q"uote`, `back\slash`, "tab\there", "@", "$", "!", "#c", "'", "{}", "[x]", " ", "𝄞", "\x01", "nul-\u0000"[:4], "%%a%%", "- a", "yes", "null", "~", "1", "true", "0x10", "1e3", "! value X", "!valueX", "$gontainer ", " @s"}
+var plainStrings = []string{"", "x", "hello world", "a:b", "100%%", "%%", "é✓", "line\nbreak", `q"uote`, `back\slash`, "tab\there", "@", "$", "!", "#c", "'", "{}", "[x]", " ", "𝄞", "\x01", "nul-\u0000"[:4], "%%a%%", "- a", "yes", "null", "~", "1", "true", "0x10", "1e3", "! value X", "!valueX", "$gontainer ", " @s",
+	// text that means something to Go, to text/template or to fmt if it is ever pasted unquoted
+	"`back`tick", "*/ end of comment", "// not a comment", "/* open", "{{.Output}}", "}}{{", "{{ end }}", "%%!d(MISSING)", "%%v %%s %%[1]d", "${HOME}", "$(id)", "\\n not a newline", "\"; os.Exit(3); \"",
+	"a\r\nb", "\u2028\u2029", "\ufeffbom", strings.Repeat("long ", 1200)}
 
 func (g *G) plainString() string { return plainStrings[g.pick(len(plainStrings))] }
 
